@@ -140,6 +140,7 @@ def run(ctx):
     hook_schedule_probe(ctx)
     two_reader_probe(ctx)
     key_function_check(ctx)
+    equal_stat_probe(ctx)
 
     # a broken correspondence with no monitor failure: look for a failing input around the disagreeing pairs
     if bad and not ctx.violations:
@@ -498,6 +499,67 @@ def two_reader_probe(ctx):
                 break
         finally:
             srv.close()
+
+
+def equal_stat_probe(ctx):
+    """DIFFERENT names whose files have the same size and the same mtime_ns (a restore with preserved times, a coarse clock):
+    in mtime+size mode their cache keys are equal, yet every name must be served with its own content and ETag, with the
+    cache kept and after it was deleted.  (No MOVE between the names: the per-file hypothesis of the mode -- an item file's
+    size or mtime changes whenever its bytes change -- holds for each name; the history-wide hypothesis stat_ok of the Coq
+    theorems is not needed here, so this is a direct monitor beside the model correspondence.)"""
+    import shutil
+    from vlib import impl
+    t0 = 1_600_000_000_123_456_789
+    for sub in (False, True):
+        for mode in (True, False):
+            conf = {"auth": {"type": "none"}, "rights": {"type": "authenticated"},
+                    "storage": {"use_mtime_and_size_for_item_cache": str(mode), "use_cache_subfolder_for_item": str(sub)}}
+            with impl.Server(conf=conf) as srv:
+                srv.mkcol("/u/")
+                srv.mkcalendar("/u/c/")
+                names = [("a.ics", "ua"), ("b.ics", "ub"), ("c.ics", "uc")]
+                for nm, uid in names:
+                    st, _, _ = srv.put("/u/c/" + nm, impl.event(uid, summary="s" + uid[1], extra="DTSTAMP:20130101T000000Z\r\n"), login="u:")
+                    assert st == 201, st
+                folder = os.path.join(srv.folder, "collection-root", "u", "c")
+                sizes = {os.path.getsize(os.path.join(folder, nm)) for nm, _ in names}
+
+                def read_all():
+                    out = {}
+                    for nm, uid in names:
+                        st, h, b = srv.request("GET", "/u/c/" + nm, login="u:")
+                        out[nm] = (st, h.get("ETag"), b)
+                    stp, ms = srv.propfind("/u/c/", depth="1", props=("D:getetag",), login="u:")
+                    out["listing"] = sorted((hh, v["D:getetag"][1].text) for hh, v in ms.items()
+                                            if isinstance(v, dict) and "D:getetag" in v and hh != "/u/c/") if stp == 207 else stp
+                    return out
+                first = read_all()                       # entries written at upload / first read
+                for nm, _ in names:
+                    os.utime(os.path.join(folder, nm), ns=(t0, t0))
+                reads = [read_all(), read_all()]         # same size, same mtime now: entries re-keyed, then hit
+                for d in (os.path.join(folder, ".Radicale.cache"), os.path.join(srv.folder, "collection-cache")):
+                    shutil.rmtree(d, ignore_errors=True)
+                reads.append(read_all())                 # cold
+                ctx.case(("equal-stat", sub, mode), nontrivial=len(sizes) == 1)
+                ctx.count("equal-stat-probe:%s" % ("one-size" if len(sizes) == 1 else "sizes-differ"))
+                for k, r in enumerate(reads):
+                    what = None
+                    for nm, uid in names:
+                        st, etag, body = r[nm]
+                        if st != 200 or ("UID:" + uid).encode() not in body or r[nm] != first[nm]:
+                            what = "GET /u/c/%s is answered %s ETag %s with %s (first read: ETag %s)" % (
+                                nm, st, etag, "the content of another item" if st == 200 and ("UID:" + uid).encode() not in body
+                                else "another answer than at the first read", first[nm][1])
+                            break
+                    if what is None and r["listing"] != first["listing"]:
+                        what = "PROPFIND Depth 1 lists %r, at the first read %r" % (r["listing"], first["listing"])
+                    if what:
+                        ctx.violation("C13 equal size and mtime (read %d, mtime+size mode %s, cache subfolder %s): %s -- not what is stored under "
+                                      "that name" % (k, mode, sub, what),
+                                      dict(mode=mode, subfolder=sub, names=names, mtime_ns=t0, read=k,
+                                           note="three events of equal size are PUT, their files get one mtime_ns by os.utime, then every "
+                                                "name is read twice with the cache kept and once after the cache folders were deleted"))
+                        return
 
 
 def key_function_check(ctx):
